@@ -10,7 +10,7 @@ if [[ "$PATCH" == -R:* ]]; then
 else
   git -C "$WT" apply "$PATCH" || { echo "apply failed"; git -C /repo worktree remove --force "$WT"; exit 3; }
 fi
-VERIF_REPO="$WT" /venv/bin/python /verif/run_check.py "$PROP" --tier "$TIER" 2>&1 | grep -E "VIOLATION|KNOWN-FINDING|SUMMARY|HARNESS|key=" | cut -c1-260 | head -${LINES_MAX:-12}
+VERIF_EVIDENCE_DIR=/tmp/scratch/evidence_scratch VERIF_REPO="$WT" /venv/bin/python /verif/run_check.py "$PROP" --tier "$TIER" 2>&1 | grep -E "VIOLATION|KNOWN-FINDING|SUMMARY|HARNESS|key=" | cut -c1-260 | head -${LINES_MAX:-12}
 rc=${PIPESTATUS[0]}
 git -C /repo worktree remove --force "$WT"
 echo "exit=$rc"
